@@ -13,23 +13,31 @@ children and every interleaving of "attach child" / "fill child" is executed); s
 deduplicated on the canonical form.  Every transition is executed by replaying the whole history
 on fresh real objects and on the reference model, and is compared clause by clause.
 
-Three instances of the same engine (per-dimension domains differ, see SPACES): `wide` (<= 2
-images, full cross product of all five attribute dimensions), `siblings` (<= 3 images: two
-siblings or a chain, medium domains, full cross product) and `deep` (<= 5/6 images, depth <= 4,
-full domains, total number of non-default attributes along the history <= K).
+Instances of the same engine (per-dimension domains differ, see spaces()): `wide` (<= 2 images,
+full cross product of all five attribute dimensions), `siblings` (<= 3 images: two siblings or a
+chain of three, medium domains, full cross product), `deep` and `deeper` (<= 4..6 images, depth
+<= 4, full domains, but the total number of non-default attributes along the history is <= K;
+the default step is "append a 4-byte image").  When two histories of different weight reach the
+same state the smaller weight is kept, so every history inside the bound is expanded.
 
 On every reached state: structure (offsets chosen by append, ordering), len() of every image,
 validate() verdict vs. the layout predicate, export() length and bytes, every sub-image's own
 export found at its absolute offset; on legal states additionally absolute addresses and
 get_image_by_absolute_address for every address in range +-1 (two base addresses), join_images
-and update_offsets on every inner image (each on a fresh replay).  A second pass takes every
-distinct legal state of `wide` and `deep` through BIN/HEX/S19 save + reload at three base
-addresses, a third runs a few representatives through the nxpimage CLI.
+on every inner image and update_offsets on the root (each on a fresh replay).  A second pass takes
+every distinct legal state of the spaces marked files=True through BIN/HEX/S19 save + reload at
+4-5 base addresses (0, 0x1000, across the 64 KiB and 16 MiB boundaries, 0xFFFFF000), a third
+sweeps byte contents (all 1- and 2-byte files) through the loaders, a fourth runs
+representatives through the nxpimage CLI (create / merge / convert).
+
+Deviations that are already understood are *named* by comparing the implementation with a
+bug-compatible variant of the model (`_lookup_inclusive`, `_abs_cut_at_empty`, `_sparse_picture`):
+the discriminator is the name of the variant that explains the answer, "other"/generic otherwise.
 
 Clause ids: C16.state, C16.children-sorted, C16.len, C16.validate-iff, C16.validate-error-type,
 C16.export-raises, C16.export-length, C16.export-bytes, C16.export-pure, C16.sub-image-at-offset,
-C16.abs-address, C16.lookup, C16.join, C16.update-offsets, C16.file-roundtrip, C16.file-error,
-C16.file-exec-address, C16.cli.
+C16.abs-address, C16.aligned-range, C16.lookup, C16.join, C16.update-offsets, C16.file-roundtrip,
+C16.file-error, C16.file-exec-address, C16.cli.
 """
 from __future__ import annotations
 
@@ -54,7 +62,8 @@ ALIGNS = (1, 4, 16)
 BINS = (0, 1, 4, 6)  # length of the own binary; 0 = none
 PATS = (None, "zeros", "ones", "0xA5", "inc")
 BASES_LOOKUP = (0, 0xFFFF_F000)
-BASES_FILE = (0, 0x1000, 0xFFFF_F000)
+BASES_FILE = (0, 0x1000, 0xFFF8, 0xFFFF_F000)  # 0xFFF8: the image crosses a 64 KiB boundary
+BASES_FILE_THOROUGH = BASES_FILE + (0xFF_FFF8,)  # ... and the 24-bit S-record address boundary
 
 ROOT_DEFAULT = (0, 0, 1, 0, None)  # (mode/offset, size, alignment, binary length, pattern)
 STEP_DEFAULT = ("app", 0, 1, 4, None)
@@ -75,13 +84,15 @@ def spaces(tier: str) -> list[dict]:
                    (MODES, SIZES, ALIGNS, BINS, (None, "zeros", "inc")), 2, 2, 3, 2, None, True, True),
             _space("siblings", ((0,), (0, 5, 12), (1, 4), (0, 6), (None, "0xA5")),
                    (MODES, (0, 4, 5), (1, 4), (0, 4, 6), (None, "0xA5")), 3, 3, 3, 2, None, False, False),
-            _space("deep", full_root, full_step, 5, 4, 3, 2, 2, True, True),
+            _space("deep", full_root, full_step, 4, 4, 3, 2, 3, False, True),
+            _space("deeper", full_root, full_step, 5, 4, 3, 2, 2, True, True),
         ]
     return [
         _space("wide", full_root, full_step, 2, 2, 3, 2, None, True, True),
-        _space("siblings", ((0,), (0, 5, 12), (1, 4), (0, 6), (None, "0xA5")),
+        _space("siblings", ((0,), (0, 5, 12), (1, 4), (0, 6), (None, "0xA5", "inc")),
                (MODES, SIZES, (1, 4), BINS, (None, "0xA5")), 3, 3, 3, 2, None, False, False),
         _space("deep", full_root, full_step, 5, 4, 3, 2, 3, True, True),
+        _space("deeper", full_root, full_step, 6, 4, 3, 2, 2, False, False),
     ]
 
 
@@ -259,6 +270,7 @@ def observe_core(b: Built, V: list, C: dict, label: str = "") -> dict:
     # validate <=> predicate
     errs = M.layout_errors(mroot)
     dontcare = M.empty_inside_sibling(mroot)
+    over = M.oversize_nodes(mroot)
     iv, why = _validate(iroot)
     kinds = "+".join(sorted({e[0] for e in errs}))
     if iv == "other":
@@ -266,17 +278,21 @@ def observe_core(b: Built, V: list, C: dict, label: str = "") -> dict:
     elif errs and iv == "ok":
         V.append(("C16.validate-iff", label + "missed:" + kinds, f"validate() passed, model: {errs}"))
     elif not errs and iv == "raise":
-        if dontcare:
+        if over:
+            pass  # refusing an image whose binary does not fit its explicit size is a rejection
+        elif dontcare:
             C["dontcare_empty_image_inside_sibling"] = C.get("dontcare_empty_image_inside_sibling", 0) + 1
         else:
             V.append(("C16.validate-iff", label + "spurious:" + why, "validate() raised on a legal layout"))
     legal = not errs
-    over = M.oversize_nodes(mroot)
     facts = {"legal": legal, "over": bool(over), "canon": ic, "export": None}
     if not legal:
         C["illegal_layouts"] = C.get("illegal_layouts", 0) + 1
         return facts
     C["legal_layouts"] = C.get("legal_layouts", 0) + 1
+    if over and iv == "raise":
+        C["oversize_rejected"] = C.get("oversize_rejected", 0) + 1
+        return facts
     tag = "binary>size" if over else ""
     try:
         data = iroot.export()
@@ -337,19 +353,23 @@ def _byte_disc(mroot, data: bytes, exp: bytes) -> str:
     return f"{kind}:{'root' if owner is mroot else 'sub'}"
 
 
-def _lookup_inclusive(root, address: int):
-    """The model's lookup with an inclusive end - used only to *name* a deviation."""
+def _lookup_inclusive(root, address: int) -> set:
+    """Every answer a lookup with an *inclusive* end could give (whatever the order in which
+    sub-images with equal offsets are tried) - used only to *name* a deviation."""
+    out: set = set()
 
-    def rec(n, base):
-        for c in n.children:
-            r = rec(c, base + c.offset)
-            if r is not None:
-                return r
+    def rec(n, base) -> bool:
         if not base <= address <= base + M.length(n):
-            return None
-        return n
+            return False
+        hit = False
+        for c in n.children:
+            hit = rec(c, base + c.offset) or hit
+        if not hit:
+            out.add(f"n{n.tag}")
+        return True
 
-    return rec(root, root.offset)
+    rec(root, root.offset)
+    return out or {None}
 
 
 def _abs_cut_at_empty(node) -> int:
@@ -398,9 +418,7 @@ def observe_addresses(b: Built, base: int, V: list, C: dict) -> None:
         ename = None if exp is None else f"n{exp.tag}"
         if gname == ename:
             continue
-        alt = _lookup_inclusive(mroot, addr)
-        aname = None if alt is None else f"n{alt.tag}"
-        disc = "end-inclusive" if gname == aname else "other"
+        disc = "end-inclusive" if gname in _lookup_inclusive(mroot, addr) else "other"
         V.append(("C16.lookup", disc, f"address {addr:#x} (base {base:#x}): got {gname}, image containing it: {ename}"))
     iroot.offset = 0
     mroot.offset = 0
@@ -428,7 +446,7 @@ def observe_post(hist: list, seed: int, b: Built, facts: dict, V: list, C: dict)
                 V.append(("C16.join", "children-left", f"node {k}"))
             observe_core(r, sub, {}, label="")
             for v in sub:
-                V.append(("C16.join", f"after-join:{v[0]}[{v[1]}]", f"node {k}: {v[2]}"))
+                V.append(("C16.join", f"after-join:{v[0]}", f"node {k}: [{v[1]}] {v[2]}"))
             try:
                 if r.inodes[0].export() != base_export:
                     V.append(("C16.join", "bytes-changed", f"node {k}: {r.inodes[0].export().hex()} before {base_export.hex()}"))
@@ -459,7 +477,7 @@ def observe_post(hist: list, seed: int, b: Built, facts: dict, V: list, C: dict)
         sub = []
         observe_core(r, sub, {}, label="")
         for v in sub:
-            V.append(("C16.update-offsets", f"after:{v[0]}[{v[1]}]", f"node {k}: {v[2]}"))
+            V.append(("C16.update-offsets", f"after:{v[0]}", f"node {k}: [{v[1]}] {v[2]}"))
     return traces
 
 
@@ -511,14 +529,14 @@ def _sparse_picture(n, base: int, mem: dict) -> None:
 def text_like(data: bytes) -> bool:
     """BIN files carry no format marker: load_binary_image sniffs the text formats (S-record,
     Intel HEX, TI-TXT, Verilog VMEM) first.  A binary whose content reads as text beginning with
-    one of their lead-ins (S : @ q, a hex digit, or nothing but white space) is inherently
-    ambiguous; such contents are outside the BIN round-trip demand."""
+    one of their lead-ins (S : @ q, a hex digit, a // or /* comment, or nothing but white space)
+    is inherently ambiguous; such contents are outside the BIN round-trip demand."""
     try:
         t = data.decode("utf-8")
     except UnicodeDecodeError:
         return False
     t = t.strip()
-    return t == "" or t[0] in "S:@q" or t[0] in "0123456789abcdefABCDEF"
+    return t == "" or t[0] in "S:@q" or t[0] in "0123456789abcdefABCDEF" or t[:2] in ("//", "/*")
 
 
 def eval_files(hist: list, seed: int, V: list, C: dict, bases=BASES_FILE) -> None:
@@ -538,7 +556,7 @@ def eval_files(hist: list, seed: int, V: list, C: dict, bases=BASES_FILE) -> Non
         for base in ((0,) if fmt == "BIN" else bases):
             iroot.offset = base
             mroot.offset = base
-            exec_addr = None if fmt == "BIN" or base == 0x1000 else (base | 1)
+            exec_addr = None if fmt == "BIN" or base in (0x1000, 0xFFF8) else (base | 1)
             iroot.execution_start_address = exec_addr
             path = os.path.join(td, f"img.{fmt.lower()}")
             C[f"file_{fmt}"] = C.get(f"file_{fmt}", 0) + 1
@@ -547,7 +565,7 @@ def eval_files(hist: list, seed: int, V: list, C: dict, bases=BASES_FILE) -> Non
             except Exception as e:  # noqa
                 empty_pat = any(M.length(n) == 0 and n.pattern is not None for n in b.mnodes)
                 disc = "save:empty-image-with-pattern" if empty_pat and fmt != "BIN" else f"save:{fmt}:{type(e).__name__}"
-                V.append(("C16.file-error", disc, f"{fmt} base {base:#x}: {type(e).__name__}: {e}"))
+                V.append(("C16.file-error", disc, f"{fmt} base {base:#x}: {type(e).__name__}: {str(e).replace(td, '<tmp>')}"))
                 continue
             if fmt == "BIN" and text_like(M.flat(mroot)):
                 C["bin_content_ambiguous_with_text_formats"] = C.get("bin_content_ambiguous_with_text_formats", 0) + 1
@@ -555,9 +573,13 @@ def eval_files(hist: list, seed: int, V: list, C: dict, bases=BASES_FILE) -> Non
             try:
                 back = BinaryImage.load_binary_image(path)
                 back.validate()
+                if len(back) > total + 4096:
+                    V.append(("C16.file-roundtrip", f"{fmt}:span", f"base {base:#x}: image of {total} bytes reloaded as {len(back)} bytes at {back.absolute_address:#x}"))
+                    continue
                 bdata = back.export()
                 baddr = back.absolute_address
             except SPSDKError as e:
+                e = str(e).replace(td, "<tmp>")
                 st = set()
                 M.stated_addresses(mroot, base, st)
                 if (fmt == "BIN" and total == 0) or (fmt != "BIN" and not st):
@@ -566,7 +588,7 @@ def eval_files(hist: list, seed: int, V: list, C: dict, bases=BASES_FILE) -> Non
                     V.append(("C16.file-error", f"load:{fmt}:SPSDKError", f"base {base:#x}: {e}"))
                 continue
             except Exception as e:  # noqa
-                V.append(("C16.file-error", f"load:{fmt}:{type(e).__name__}", f"base {base:#x}: {e}"))
+                V.append(("C16.file-error", f"load:{fmt}:{type(e).__name__}", f"base {base:#x}: {str(e).replace(td, '<tmp>')}"))
                 continue
             orig = M.picture(mroot, base)
             if fmt == "BIN":
@@ -595,6 +617,22 @@ def eval_files(hist: list, seed: int, V: list, C: dict, bases=BASES_FILE) -> Non
 
 # ---------------------------------------------------------------------------------------------
 # workers
+
+
+def _winit() -> None:
+    """Forked workers only: cap the address space at (inherited size + 3 GiB), so that a defect
+    that makes the code under check allocate gigabytes (e.g. an image reloaded at a wrong 32-bit
+    address and exported) surfaces as MemoryError in the case instead of killing the worker."""
+    if str(os.getpid()) == _RUN_TAG:
+        return
+    try:
+        import resource
+
+        pages = int(open("/proc/self/statm").read().split()[0])
+        lim = pages * os.sysconf("SC_PAGE_SIZE") + (3 << 30)
+        resource.setrlimit(resource.RLIMIT_AS, (lim, lim))
+    except Exception:  # noqa
+        pass
 
 
 def _explicit(sp: dict, codes) -> list:
@@ -680,14 +718,14 @@ def _dedupe_smallest(V: list) -> list:
 
 
 def w_files(task: Any) -> dict:
-    name, seed, states = task
+    name, seed, states, bases = task
     sp = _SPACES[name]
     V: list = []
     C: dict = {}
     for codes in states:
         hist = _explicit(sp, codes)
         v0 = len(V)
-        eval_files(hist, seed, V, C)
+        eval_files(hist, seed, V, C, bases)
         for j in range(v0, len(V)):
             V[j] = (V[j][0], V[j][1], V[j][2], hist)
         C["file_states"] = C.get("file_states", 0) + 1
@@ -720,9 +758,9 @@ def w_content(task: Any) -> dict:
                 if got != data or back.absolute_address != 0:
                     V.append(("C16.file-roundtrip", "BIN:content", f"{data!r} -> {got!r} at {back.absolute_address:#x}", {"content": data, "fmt": "BIN"}))
             except SPSDKError as e:
-                V.append(("C16.file-error", "load:BIN:content", f"{data!r}: {e}", {"content": data, "fmt": "BIN"}))
+                V.append(("C16.file-error", "load:BIN:content", f"{data!r}: {str(e).replace(td, '<tmp>')}", {"content": data, "fmt": "BIN"}))
             except Exception as e:  # noqa
-                V.append(("C16.file-error", f"load:BIN:{type(e).__name__}", f"{data!r}: {e}", {"content": data, "fmt": "BIN"}))
+                V.append(("C16.file-error", f"load:BIN:{type(e).__name__}", f"{data!r}: {str(e).replace(td, '<tmp>')}", {"content": data, "fmt": "BIN"}))
         data = bytes([first, first ^ 0xFF, first])
         for fmt in ("HEX", "S19"):
             C["content_cases"] += 1
@@ -734,7 +772,7 @@ def w_content(task: Any) -> dict:
                 if got != data or back.absolute_address != 0xFFFF_F000 + first:
                     V.append(("C16.file-roundtrip", f"{fmt}:content", f"{data!r} -> {got!r} at {back.absolute_address:#x}", {"content": data, "fmt": fmt}))
             except Exception as e:  # noqa
-                V.append(("C16.file-error", f"{fmt}:content:{type(e).__name__}", f"{data!r}: {e}", {"content": data, "fmt": fmt}))
+                V.append(("C16.file-error", f"{fmt}:content:{type(e).__name__}", f"{data!r}: {str(e).replace(td, '<tmp>')}", {"content": data, "fmt": fmt}))
     return {"viol": _dedupe_smallest_any(V), "count": C}
 
 
@@ -756,6 +794,7 @@ def w_cli(task: Any) -> dict:
 
     from spsdk.apps import nxpimage
     from spsdk.exceptions import SPSDKError
+    from spsdk.utils.images import BinaryImage
 
     seed = task
     V: list = []
@@ -826,6 +865,39 @@ def w_cli(task: Any) -> dict:
                         V.append(("C16.cli", "merge:illegal-layout-accepted", f"{nm} adjust={adjust}: rc {r.exit_code}", case))
                     elif r.exception is not None and not isinstance(r.exception, (SystemExit, SPSDKError)):
                         V.append(("C16.cli", "merge:error-type", f"{nm}: {type(r.exception).__name__}: {r.exception}", case))
+        # merge: omitted offsets ("placed after previous one with defined alignment"), derived size
+        cfg = {"name": "auto", "pattern": "0xA5", "alignment": 4, "regions": [
+            {"binary_file": {"path": "a.bin"}}, {"binary_block": {"size": 3, "pattern": "inc"}}, {"binary_file": {"path": "b.bin"}}]}
+        root = M.Node(0, 0, 4, None, "0xA5", tag="root")
+        for node in (M.Node(0, 0, 1, d1, None, tag="a"), M.Node(0, 3, 1, None, "inc", tag="blk"), M.Node(0, 0, 1, d2, None, tag="b")):
+            node.offset = M.round_up(M.length(root), 4)
+            M.add(root, node)
+        cpath = os.path.join(td, "auto.json")
+        open(cpath, "w").write(json.dumps(cfg))
+        out = os.path.join(td, "auto.bin")
+        r = call(["utils", "binary-image", "merge", "-c", cpath, "-o", out])
+        got = open(out, "rb").read() if os.path.exists(out) else None
+        if r.exit_code != 0 or got != M.flat(root):
+            V.append(("C16.cli", "merge:omitted-offsets", f"rc {r.exit_code} {got and got.hex()} vs {M.flat(root).hex()}: {r.output[-300:]}", {"cli": "merge", "layout": "auto"}))
+        # merge: regions with explicit offsets in either order give the same image (a HEX file
+        # with two segments and a gap, and a pattern block)
+        two = BinaryImage("two")
+        two.add_image(BinaryImage("s0", binary=d1[:4], offset=0))
+        two.add_image(BinaryImage("s1", binary=d2, offset=8))
+        two.save_binary_image(os.path.join(td, "two.hex"), "HEX")
+        regs = [{"binary_block": {"size": 2, "offset": 0, "pattern": "ones"}}, {"binary_file": {"path": "two.hex", "offset": 4}}]
+        outs = []
+        for order in (0, 1):
+            cfg = {"name": "order", "pattern": "0xA5", "regions": regs if order == 0 else regs[::-1]}
+            cpath = os.path.join(td, f"order{order}.json")
+            open(cpath, "w").write(json.dumps(cfg))
+            out = os.path.join(td, f"order{order}.bin")
+            r = call(["utils", "binary-image", "merge", "-c", cpath, "-o", out])
+            outs.append(open(out, "rb").read() if r.exit_code == 0 and os.path.exists(out) else None)
+        if outs[0] is None or outs[1] is None:
+            V.append(("C16.cli", "merge:legal-layout", f"two-segment file + block refused: {outs}", {"cli": "merge", "layout": "order"}))
+        elif outs[0] != outs[1]:
+            V.append(("C16.cli", "merge:region-order-changes-bytes", f"block first: {outs[0].hex()}  file first: {outs[1].hex()}", {"cli": "merge", "layout": "order"}))
         # convert chain BIN -> HEX -> S19 -> BIN
         src = os.path.join(td, "a.bin")
         chain = [("HEX", "x.hex"), ("S19", "x.s19"), ("BIN", "x.bin"), ("S19", "y.s19"), ("HEX", "y.hex"), ("BIN", "y.bin")]
@@ -886,7 +958,8 @@ def run(ctx: core.Ctx) -> None:
     tables: dict = {}
     total_trans = 0
     total_traces = 0
-    file_states: list = []  # (space, codes)
+    file_states: list = []  # (space, codes) of every distinct legal state of the spaces with files=True
+    file_seen: set = set()
     stop = False
     for sp in sps:
         name = sp["name"]
@@ -912,10 +985,14 @@ def run(ctx: core.Ctx) -> None:
             lvl_trans = 0
             lvl_hashes: set = set()
             done = True
-            for case, res in ctx.pool_map(w_expand, tasks, timeout=600, chunksize=1,
+            for case, res in ctx.pool_map(w_expand, tasks, timeout=300, chunksize=1, initfn=_winit,
                                           check_det=(2 if level == 2 else 0)):
                 descr = {"space": name, "level": level, "states": len(case[3]), "first": case[3][0][0]}
+                if isinstance(res, dict) and res.get("__watchdog__"):
+                    # keep the whole chunk so that --replay can re-expand it state by state
+                    descr.update({"tier": ctx.tier, "seed": seed, "expand": [[list(c), w] for c, w in case[3]]})
                 if not _absorb(ctx, descr, res, seed):
+                    ctx.exhaustive = False  # the successors of this chunk are missing
                     continue
                 lvl_trans += res["transitions"]
                 total_traces += res["traces"]
@@ -939,11 +1016,15 @@ def run(ctx: core.Ctx) -> None:
             tab["levels"].append({"images": level, "states_expanded": len(frontier), "transitions": lvl_trans,
                                   "distinct_states": len(lvl_hashes), "distinct_legal_states": legal, "complete": done})
             all_states |= lvl_hashes
+            del lvl_hashes
             if not done:
                 break
             tab["completed_levels"] = level
             if sp["files"]:
-                file_states += [(name, new[h][0]) for h in order if h & 1]
+                for h in order:
+                    if h & 1 and h not in file_seen:
+                        file_seen.add(h)
+                        file_states.append((name, new[h][0]))
             frontier = [(new[h][0], new[h][1]) for h in order] if need_hist else []
             if level <= 3 and order:
                 ctx.sample({"space": name, "hist": _explicit(sp, new[order[len(order) // 2]][0])})
@@ -951,19 +1032,17 @@ def run(ctx: core.Ctx) -> None:
     # file formats on every distinct legal state of the spaces that ask for it
     nfiles = 0
     if not stop and file_states:
-        seen_f: set = set()
-        todo = []
-        for name, codes in file_states:
-            todo.append((name, codes))
         chunk = 200
         tasks = []
+        fbases = BASES_FILE_THOROUGH if ctx.tier == "thorough" else BASES_FILE
+        ctx.cov["file_base_addresses"] = [hex(x) for x in fbases]
         byspace: dict = {}
-        for name, codes in todo:
+        for name, codes in file_states:
             byspace.setdefault(name, []).append(codes)
         for name, lst in byspace.items():
-            tasks += [(name, seed, lst[i:i + chunk]) for i in range(0, len(lst), chunk)]
+            tasks += [(name, seed, lst[i:i + chunk], fbases) for i in range(0, len(lst), chunk)]
         ev0 = ctx.counters["evaluations"]
-        for case, res in ctx.pool_map(w_files, tasks, timeout=600, chunksize=1, check_det=1):
+        for case, res in ctx.pool_map(w_files, tasks, timeout=300, chunksize=1, check_det=1, initfn=_winit):
             if _absorb(ctx, {"files": case[0], "states": len(case[2])}, res, seed):
                 nfiles += res["count"].get("file_states", 0)
             if ctx.out_of_budget():
@@ -975,7 +1054,7 @@ def run(ctx: core.Ctx) -> None:
         seconds = list(range(256)) if ctx.tier == "thorough" else [0x00, 0x0A, 0x20, 0x30, 0x41, 0x80, 0xFF]
         ev0 = ctx.counters["evaluations"]
         tasks = [(lo, lo + 8, seconds) for lo in range(0, 256, 8)]
-        for case, res in ctx.pool_map(w_content, tasks, timeout=600, chunksize=1, check_det=1):
+        for case, res in ctx.pool_map(w_content, tasks, timeout=300, chunksize=1, check_det=1, initfn=_winit):
             _absorb(ctx, {"content": [case[0], case[1]], "second_bytes": len(case[2])}, res, seed)
         ctx.counters["evaluations"] = ev0 + ctx.counters.get("content_cases", 0)
         ctx.cov["content_sweep"] = {"one_byte": 256, "two_byte": 256 * len(seconds), "hex_s19_values": 256}
@@ -991,6 +1070,7 @@ def run(ctx: core.Ctx) -> None:
     ctx.cov["transitions"] = total_trans
     ctx.cov["traces_validated_against_impl"] = total_traces
     ctx.cov["distinct_nontrivial"] = len(all_states)
+    ctx.distinct = all_states  # only its size is read by the runner's summary line
     ctx.cov["distinct_legal_states_fully_compared"] = legal_states
     ctx.cov["file_format_states"] = nfiles
     ctx.cov["spaces"] = tables
@@ -1032,6 +1112,16 @@ def replay(ctx: core.Ctx, rec: dict) -> bool:
     seed = int(case.get("seed", 0))
     V: list = []
     C: dict = {}
+    if "expand" in case:
+        for sp in spaces(case.get("tier", "quick")):
+            _SPACES[sp["name"]] = _prepare(sp)
+        for codes, w in case["expand"]:
+            res = core.run_with_watchdog(w_expand, (case["space"], seed, False, [(tuple(codes), w)]), 120)
+            if res.get("__watchdog__"):
+                print("watchdog: expanding the state reached by", _explicit(_SPACES[case["space"]], tuple(codes)) if codes else "<roots>",
+                      "does not terminate")
+                return True
+        return False
     if "cli" in case:
         res = w_cli(seed)
         V = [(v[0], v[1], v[2]) for v in res["viol"]]
@@ -1044,7 +1134,7 @@ def replay(ctx: core.Ctx, rec: dict) -> bool:
         hist = [[s[0], s[1], s[2], s[3], s[4], s[5]] for s in case["hist"]]
         eval_history(hist, seed, True, V, C)
         if rec["clause"].startswith("C16.file"):
-            eval_files(hist, seed, V, C)
+            eval_files(hist, seed, V, C, BASES_FILE_THOROUGH)
         _cleanup_tmp()
     hits = [v for v in V if v[0] == rec["clause"] and v[1] == rec["disc"]]
     for h in hits[:5]:
